@@ -66,6 +66,6 @@ def create_range_space(mins: Array, maxs: Array) -> tuple[Array, Callable]:
 
     def index_fn(vector: Array) -> int:
         """Map vector to unique index using row-major (C-style) ordering."""
-        return jnp.ravel_multi_index(tuple(vector), dimensions, mode="clip")
+        return jnp.ravel_multi_index(tuple(vector - mins), dimensions, mode="clip")
 
     return space, index_fn
